@@ -17,7 +17,8 @@ arr_real awgn(const arr_real& arr, real_t snr) {
 
 //-------------------------------------------------------------------------------------------------
 arr_cmplx awgn(const arr_cmplx& arr, real_t snr) {
-    real_t stddev = 0.5 * rms(arr) * std::pow(10, ((-1) * snr / 20));
+    //the noise power is split equally between the real and the imaginary part
+    real_t stddev = std::sqrt(real_t(0.5)) * rms(arr) * std::pow(10, ((-1) * snr / 20));
     arr_cmplx r(arr);
     r += complex(randn(r.size()) * stddev, randn(r.size()) * stddev);
     return r;
